@@ -27,7 +27,7 @@ ASSUMPTIONS = ['RLIMIT_FSIZE limits every file of the process: data files are ke
 ANCHORS = ['array:Array.iterappend', 'array:Array.append', 'array:Array._append', 'array:Array._checkarrayforappend',
            'array:Array._update_len']
 REQUIRED = ['mon.failure_oracle', 'mon.write_fault_children', 'mon.logic_faults']
-MIN_NONTRIVIAL = {'quick': 800, 'thorough': 8000}
+MIN_NONTRIVIAL = {'quick': 700, 'thorough': 5000}
 
 LOGIC_KINDS = ['iterraises', 'badshape', 'badrank', 'unconvertible_str', 'complex_into_real', 'int_too_large', 'zerod']
 TRAILS = [(), (2,), (2, 3)]
@@ -36,28 +36,29 @@ TRAILS = [(), (2,), (2, 3)]
 def cases(tier, seed):
     combos = [('int32', 'little'), ('float64', 'big'), ('uint8', 'little'), ('complex64', 'big'),
               ('int16', 'big'), ('float32', 'little')]
-    idx = 0
     nmax = 3 if tier == 'quick' else 4
-    for start in ('empty', 'nonempty'):
+    for rot in range(1 if tier == 'quick' else 6):      # thorough: every dtype combination meets every fault cell
+      idx = rot
+      for start in ('empty', 'nonempty'):
         for trail in TRAILS:
-            for kind in LOGIC_KINDS:
-                for n in range(0, nmax + 1):
-                    for pos in range(0, n + 1):
-                        if kind != 'iterraises' and pos == n:
-                            continue     # a bad chunk needs a position inside the list
-                        nt, bo = combos[idx % len(combos)]
-                        idx += 1
-                        if kind == 'complex_into_real' and nt.startswith('complex'):
-                            nt = 'float32'
-                        yield {'k': 'logic', 'api': 'iterappend', 'start': start, 'trail': list(trail), 'kind': kind,
-                               'n': n, 'pos': pos, 'numtype': nt, 'bo': bo}
-                if kind != 'iterraises':
-                    nt, bo = combos[idx % len(combos)]
-                    idx += 1
-                    if kind == 'complex_into_real' and nt.startswith('complex'):
-                        nt = 'int16'
-                    yield {'k': 'logic', 'api': 'append', 'start': start, 'trail': list(trail), 'kind': kind,
-                           'n': 1, 'pos': 0, 'numtype': nt, 'bo': bo}
+              for kind in LOGIC_KINDS:
+                  for n in range(0, nmax + 1):
+                      for pos in range(0, n + 1):
+                          if kind != 'iterraises' and pos == n:
+                              continue     # a bad chunk needs a position inside the list
+                          nt, bo = combos[idx % len(combos)]
+                          idx += 1
+                          if kind == 'complex_into_real' and nt.startswith('complex'):
+                              nt = 'float32'
+                          yield {'k': 'logic', 'api': 'iterappend', 'start': start, 'trail': list(trail), 'kind': kind,
+                                 'n': n, 'pos': pos, 'numtype': nt, 'bo': bo}
+                  if kind != 'iterraises':
+                      nt, bo = combos[idx % len(combos)]
+                      idx += 1
+                      if kind == 'complex_into_real' and nt.startswith('complex'):
+                          nt = 'int16'
+                      yield {'k': 'logic', 'api': 'append', 'start': start, 'trail': list(trail), 'kind': kind,
+                             'n': 1, 'pos': 0, 'numtype': nt, 'bo': bo}
     # ---- kernel-enforced write failures
     wcombos = combos if tier == 'thorough' else combos[:3]
     for start in ('nonempty', 'empty'):
